@@ -1,5 +1,5 @@
 """C07 on the whole-program machine: theorems in coq/props/C07.v, whole-trace correspondence, monitor(s) ['C07']"""
-from harness import machine_prop
+from harness import machine_prop, scopecorr
 from harness.props._machine_common import TRUSTED, ASSUMPTIONS, RULE  # noqa
 
 ID = 'C07'
@@ -132,6 +132,8 @@ def run(ctx):
     machine_prop.run(ctx, [], MONITORS + ['C04'], extra_scenarios=teardown_spawns(ctx.rng, ctx.n(30, 500)))
     # dates that are inexact in binary floating point: the block must end at EXACTLY the date (implementation only)
     machine_prop.run(ctx, [('untils', 200, 3000, {'float_times': True})], MONITORS + ['C01'], model=False)
+    # protocol layer: label sequences extracted from real until-scopes, replayed through ScopeProto.v
+    scopecorr.run(ctx, kinds=('until',))
 
 
 def search(ctx):
@@ -141,8 +143,12 @@ def search(ctx):
 
 
 def replay(ctx, rp):
+    if rp.get('family') == scopecorr.FAMILY:
+        return scopecorr.replay(ctx, rp)
     return machine_prop.replay(ctx, rp, MONITORS)
 
 
 def shrink(ctx, failure):
+    if failure.family == scopecorr.FAMILY:
+        return scopecorr.shrink(ctx, failure)
     return machine_prop.shrink(ctx, failure, MONITORS)
